@@ -143,7 +143,12 @@ class PopenSpawn(SpawnBase):
 
         b = self._encoder.encode(s, final=False)
         if PY3:
-            return self.proc.stdin.write(b)
+            # The unbuffered pipe may take only part of a large payload (e.g.
+            # when a signal handler runs in the middle): write the rest too.
+            written = self.proc.stdin.write(b)
+            while written < len(b):
+                written += self.proc.stdin.write(b[written:])
+            return written
         else:
             # On Python 2, .write() returns None, so we return the length of
             # bytes written ourselves. This assumes they all got written.
